@@ -28,7 +28,9 @@ def make_pair(rng, rows, cols, dmin, dmax, bands=None, masks=False, smooth=True,
 
     def build(img2d, side, with_disp, lo, hi):
         if bands:
-            data = np.stack([img2d + 3 * i for i in range(len(bands))]).astype(np.float32)
+            # bands that are not affine copies of one another (a cost computed on the wrong band must differ by more
+            # than a constant): band i = (2i+1) * image + 7i modulo the radiometric range
+            data = np.stack([np.mod(img2d * (2 * i + 1) + 7 * i, vmax) for i in range(len(bands))]).astype(np.float32)
             ds = xr.Dataset({"im": (["band_im", "row", "col"], data)},
                             coords={"band_im": list(bands), "row": np.arange(rows), "col": np.arange(cols)})
         else:
